@@ -12,7 +12,7 @@ ASSUMPTIONS = [
     "competitor tasks only await asyncio.sleep(0); the explorer picks the next ready handle (superset of FIFO)",
 ]
 MODE = sched.Mode("C30", tocks=True, rets=True, raises=True, enterdone=True, enterfail=True, horizon=3,
-                  limits=(None, 2.0, 2.5, 0.3), always=True)
+                  limits=(None, 2.0, 2.5, 0.3), always=True, callcfg=True)
 
 
 def BOUND(tier):
@@ -21,7 +21,7 @@ def BOUND(tier):
 
 def RULE(tier):
     return ("every doer forest shape of the tier x every execution with <= %d deviations (config, leaf kind, per-step "
-            "yield/return/raise/complete-or-fail in enter, and which ready asyncio handle runs next while 0..2 competitor "
+            "yield/return/raise/complete-or-fail in enter, limit and start tyme given to the constructor or to do()/ado() over stale constructor values, and which ready asyncio handle runs next while 0..2 competitor "
             "tasks spin on sleep(0)); the run with Doist.do() and the run with Doist.ado() on the virtual loop must give "
             "identical event traces, tymes, done flags, completion cycle and forced exits." % BOUND(tier))
 
@@ -47,7 +47,7 @@ def view(w):
 def harness(job, ch):
     shape, ncomp = job[1], job[2]
     base = sched.run(("C30", shape) + tuple(x for x in job[3:] if x == "sweep"), ch, mode=MODE)
-    cfg = (base.T, base.start, base.limit)
+    cfg = (base.T, base.start, base.limit, base.via)
     kmap = dict(base.kindsel)
     spins = [0]
 
@@ -62,7 +62,7 @@ def harness(job, ch):
         def pick(n):
             return ch.choose(n, "ready")
         try:
-            res, exc, steps = vloop.drive(lambda: d.ado(), pick, competitors=[comp] * ncomp)
+            res, exc, steps = vloop.drive(lambda: d.ado(**w.call_kwargs), pick, competitors=[comp] * ncomp)
         except vloop.Deadlock:
             w.log("#", "horizon")
             w.end = len(w.trace)
